@@ -94,7 +94,15 @@ def main() -> None:
             "observation answers *undecidable* (inconclusive) instead of *not this finding*; `C19-b2` renames "
             "`MetricFetcher._fallback`, which the synchronous evaluator of the C12 harness reads - the resulting "
             "`AttributeError` was reported as an exception of the observed code, it is now a harness error "
-            "(C12 is inconclusive on that patch, the only non-silent entry below).", "",
+            "(C12 is inconclusive on that patch, the only non-silent entry below). "
+            "A third round (names ending in `3`, 40 patches on the tree after the round-8/9 repairs) also refactored the "
+            "code *around* the anchored files - the pools, `PowerWrapper`, the data pipeline, the managers, the formula pool "
+            "and generators - because the checks by then drove those as well. Two patches first made a check inconclusive "
+            "and led to more robust harness code: `C11-b3` renames the wrapper's private channel attributes (the wrapper "
+            "tiers of C11/C14 now find the request channel by type, through `distribution_results_fetcher()` and the public "
+            "channels, instead of by private name) and `C02-b3` makes `ComponentPoolStatusTracker.__init__` keyword-only "
+            "(the C16 pool tier now constructs it with keywords). `C07-b3` was re-expressed on the tree that contains the "
+            "MovingWindow repair.", "",
             "| refactoring | file(s) touched | size | checks |", "|---|---|---|---|", *rrows]
     p = V / "DESIGN.md"
     s = p.read_text()
